@@ -312,8 +312,9 @@ def gen_script(rng: random.Random, n: int, flavour: str, ntrees: int) -> list:
     """Commands for one thread. The generator tracks block depth from the documented validity of what it passes."""
     cmds = []
     depth = 0
-    names = C.OPTION_NAMES if flavour == 'opts' else C.EDIT_STORE_OPTS
+    names = C.EDIT_STORE_OPTS if flavour == 'mixed' else C.OPTION_NAMES
     w = {'opts': (('call', 30), ('set', 25), ('enter', 22), ('exit', 23)),
+         'storm': (('set', 50), ('enter', 25), ('exit', 25)),
          'mixed': (('edit', 45), ('call', 10), ('set', 15), ('enter', 15), ('exit', 15))}[flavour]
     kinds = [k for k, c in w for _ in range(c)]
     for _ in range(n):
@@ -367,7 +368,7 @@ def stress(seed: int, nthreads: int, nsteps: int, flavour: str, corpus: list, re
     rng = random.Random(seed)
     scripts = []
     for j in range(nthreads):
-        ntrees = 0 if flavour == 'opts' else rng.choice((1, 2))
+        ntrees = rng.choice((1, 2)) if flavour == 'mixed' else 0
         srcs = [rng.choice(corpus) for _ in range(ntrees)]
         scripts.append((gen_script(rng, nsteps, flavour, max(1, ntrees)), srcs))
     start = threading.Barrier(nthreads)
